@@ -95,6 +95,12 @@ def render_encoder(which):
         for fn_ in repo.module_ast(RENDER).body:
             if isinstance(fn_, ast.FunctionDef) and fn_.name in called:
                 inner += [n for n in ast.walk(fn_) if isinstance(n, ast.FunctionDef) and n.name == 'render_literal_value']
+    if not inner:
+        # ... or in a class of the module (a mixin combined with the dialect's compiler inside the helper): every override of the module, when they all
+        # have the same body, is the override in force whichever way it is reached
+        allov = [n for n in ast.walk(repo.module_ast(RENDER)) if isinstance(n, ast.FunctionDef) and n.name == 'render_literal_value']
+        if allov and len({ast.dump(ast.Module(body=n.body, type_ignores=[])) for n in allov}) == 1:
+            inner = allov[:1]
     if len(inner) != 1:
         raise FstError(f'{which}: {len(inner)} render_literal_value overrides')
     try:
